@@ -719,7 +719,12 @@ def suite_malformed(out, tier, seed):
             is_disco = cfg.startswith("v3") and ber.parse_v3_message(data)["user"] == b""
             cap.setdefault("discovery" if is_disco else "response", reply)
             return reply
-        run(Client("127.0.0.1", creds, sender=tap).get(OID("1.3.1.1.0")))
+        try:
+            run(Client("127.0.0.1", creds, sender=tap).get(OID("1.3.1.1.0")))
+        except Exception as e:  # noqa
+            out.fail({"kind": "malformed", "config": cfg, "auth": bool(auth), "mutation": "none (the authentic exchange itself)"},
+                     "a valid request fails: %s: %s" % (type(e).__name__, e), "the agent's answer")
+            continue
         target = "discovery" if cfg == "v3-discovery" else "response"
         for kind, where, mutated in mutants(cap[target]):
             state = {"armed": True}
